@@ -24,3 +24,11 @@ Print Assumptions C18_strings_are_the_sources.
 
 (* why the flag matters: with the key updated only after a lookup, [a; resolver; a] sends the second a to the resolver *)
 Check stale_cache_misroutes.
+
+(* tie: the functions this property's model describes by hand (not by translation) still have the pinned text; an
+   edit to one of them breaks this obligation and sends the check searching for a failing input *)
+From VL Require Import ShapeFacts.
+From VLG Require Import ShapeGen.
+Theorem C18_modelled_code_is_the_pinned_text : shapes_for_C18 = true.
+Proof. exact shapes_C18_ok. Qed.
+Print Assumptions C18_modelled_code_is_the_pinned_text.
